@@ -278,10 +278,12 @@ Qed.
 
 (** ** Registration order *)
 Lemma tree_order_independent : forall benches groups benches' groups',
-  Permutation benches benches' -> Permutation groups groups' -> NoDup (map group_key groups) ->
+  Permutation benches benches' -> Permutation groups groups' ->
+  NoDup (map (attach_key benches groups) groups) ->
+  (forall x, In x groups -> attach_key benches' groups' x = attach_key benches groups x) ->
   forest_equiv (build_tree benches groups) (build_tree benches' groups').
 Proof.
-  intros b g b' g' Hb Hg Hnd.
+  intros b g b' g' Hb Hg Hnd Hkf.
   apply forest_determined.
   - apply Forall_forall. intros t _. apply all_determined.
   - apply modules_merged.
@@ -289,8 +291,10 @@ Proof.
   - apply modules_merged.
   - apply inhab_build_tree.
   - unfold LR. rewrite !build_tree_leaves_rel.
-    assert (Hre : forall x, rekey g x = rekey g' x).
-    { intro x. unfold rekey, keyed_chain. rewrite (upd_all_perm g g' Hg Hnd). reflexivity. }
+    assert (Hre : forall x, rekey (attach_key b g) g x = rekey (attach_key b' g') g' x).
+    { intro x. unfold rekey, keyed_chain. rewrite (upd_all_perm _ g g' Hg Hnd).
+      rewrite (upd_all_ext (attach_key b g) (attach_key b' g') g'); [reflexivity|].
+      intros y Hy. symmetry. apply Hkf. apply (Permutation_in y (Permutation_sym Hg)). exact Hy. }
     rewrite (map_ext _ _ Hre).
     apply Permutation_map.
     eapply Permutation_trans; [apply tree_complete|].
